@@ -182,6 +182,12 @@ pub(crate) struct SolverState {
 
     decision_tracker: DecisionTracker,
 
+    /// The decision level at which the current call to [`Solver::run_sat`]
+    /// started. The decisions at or below this level make up the solution
+    /// that was found before (e.g. for the root requirements when solving
+    /// for a soft requirement), conflict analysis must not undo them.
+    starting_level: u32,
+
     /// Activity score per package.
     name_activity: Vec<f32>,
 }
@@ -394,6 +400,7 @@ impl<D: DependencyProvider, RT: AsyncRuntime> Solver<D, RT> {
             .unwrap_or(0);
 
         let mut level = starting_level;
+        self.state.starting_level = starting_level;
 
         loop {
             if level == starting_level {
@@ -417,16 +424,19 @@ impl<D: DependencyProvider, RT: AsyncRuntime> Solver<D, RT> {
                     "╤══ Install {} at level {level}",
                     root_solvable.display(self.provider())
                 );
+                let root_variable = self
+                    .state
+                    .variable_map
+                    .intern_solvable_or_root(root_solvable);
+                if self.state.decision_tracker.assigned_value(root_variable) == Some(false) {
+                    // A clause that was learnt while trying to install the solvable rules it
+                    // out on top of the decisions made before this call.
+                    return Ok(false);
+                }
                 self.state
                     .decision_tracker
                     .try_add_decision(
-                        Decision::new(
-                            self.state
-                                .variable_map
-                                .intern_solvable_or_root(root_solvable),
-                            true,
-                            ClauseId::install_root(),
-                        ),
+                        Decision::new(root_variable, true, ClauseId::install_root()),
                         level,
                     )
                     .expect("already decided");
@@ -1422,8 +1432,9 @@ impl<D: DependencyProvider, RT: AsyncRuntime> Solver<D, RT> {
             );
         }
 
-        // Should revert at most to the root level
-        let target_level = back_track_to.max(1);
+        // Should revert at most to the root level, and never undo the decisions that were
+        // made before the current `run_sat` started.
+        let target_level = back_track_to.max(1).max(self.state.starting_level);
         self.state.decision_tracker.undo_until(target_level);
 
         self.decay_activity_scores();
